@@ -116,6 +116,7 @@ func c11Run(c *verifeng.Chooser, depth, nclients int, bursts int) {
 		clients[i] = &c11client{}
 	}
 	stopped := false
+	secondQueued := false
 	var pendingEmits []*verifbubble.Task
 
 	// act runs f as an actor and requires it to return by quiescence.
@@ -178,6 +179,7 @@ func c11Run(c *verifeng.Chooser, depth, nclients int, bursts int) {
 			}
 		}
 		pendingEmits = nil
+		secondQueued = false
 		return true
 	}
 	readOne := func(i int) (got bool) {
@@ -239,8 +241,36 @@ func c11Run(c *verifeng.Chooser, depth, nclients int, bursts int) {
 		if src.parked != nil {
 			// a backlog read is in progress: the source goes on emitting,
 			// or the read returns
-			if len(pendingEmits) < 2 {
+			if len(pendingEmits) < 2 && !secondQueued {
 				menu = append(menu, ev{"emit (while a backlog is being read)", func() bool { return emit(1) }})
+			}
+			// a second caller subscribes while the handler is busy with
+			// the first registration: its call waits for the handler
+			// (offered while no event is on its way, so that its backlog
+			// is simply everything emitted so far)
+			if !stopped && !secondQueued && len(pendingEmits) == 0 {
+				for i := range clients {
+					i := i
+					cl := clients[i]
+					if cl.state != "" || cl.pending != nil {
+						continue
+					}
+					menu = append(menu, ev{fmt.Sprintf("subscribe(c%d,from=0) while the handler is busy with the other registration", i), func() bool {
+						secondQueued = true
+						var backlog []uint32
+						for _, n := range src.emitted {
+							backlog = append(backlog, n.Height())
+						}
+						cl.expect = backlog
+						cl.expecting = true
+						cl.pending = verifbubble.Go(fmt.Sprintf("NewSubscription(c%d)", i), func() (any, error) {
+							s, err := m.NewSubscription(0)
+							return s, err
+						})
+						return true
+					}})
+					break
+				}
 			}
 			menu = append(menu, ev{"the backlog read returns", release})
 			if !stopped {
@@ -446,6 +476,24 @@ func c11Run(c *verifeng.Chooser, depth, nclients int, bursts int) {
 						func(a, b *verifbubble.Task) bool { canc(); afterStop(); return true })
 					pair(fmt.Sprintf("Cancel(c%d) by two callers at once", i), cancelCall, cancelCall,
 						func(a, b *verifbubble.Task) bool { canc(); cl.cancels++; return true })
+					// a cancellation and the next event at once: whether
+					// the cancelled client still gets the event is open
+					// (its stream is frozen afterwards), everybody else does
+					emitCall := func() (any, error) {
+						n := mkNtfn(len(src.emitted) + 1)
+						src.emitted = append(src.emitted, n)
+						for _, o := range clients {
+							if o != cl && (o.state == "sub" || o.expecting) && !o.frozen {
+								o.expect = append(o.expect, n.Height())
+							}
+						}
+						src.ch <- n
+						return nil, nil
+					}
+					pair(fmt.Sprintf("Cancel(c%d) and emit at once, emit running first", i), cancelCall, emitCall,
+						func(a, b *verifbubble.Task) bool { cl.expect = append(cl.expect, uint32(len(src.emitted))); canc(); return true })
+					pair(fmt.Sprintf("Cancel(c%d) and emit at once, Cancel running first", i), emitCall, cancelCall,
+						func(a, b *verifbubble.Task) bool { cl.expect = append(cl.expect, uint32(len(src.emitted))); canc(); return true })
 					break
 				}
 			}
